@@ -85,16 +85,23 @@ type Sched struct {
 	// MaxSlack bounds the "timer lands first" deviation: the clock is advanced past enabled threads only to a timer that
 	// is at most this far away (letting a runnable thread be slower than that is not a behaviour worth exploring)
 	MaxSlack time.Duration
-	Diverged string
-	Trace    []Choice
-	Explore  bool // when false: canonical choice everywhere, no recording
-	Steps    int
-	MaxSteps int
-	Panics   []string
-	Deadlock bool
-	Horizon  bool
-	Log      []string
-	wg       sync.WaitGroup
+	// NoClockDeviation: the clock advances only when no thread is enabled (computation is infinitely fast compared with
+	// timers); the "timer lands first" alternative is never offered.
+	NoClockDeviation bool
+	// ArriveYield: a blocking operation on an unbuffered channel is preceded by a scheduling point of its own, so that
+	// "about to block" and "parked" are different states (a non-blocking partner operation - select with default -
+	// tells them apart: it succeeds only against a parked thread).
+	ArriveYield bool
+	Diverged    string
+	Trace       []Choice
+	Explore     bool // when false: canonical choice everywhere, no recording
+	Steps       int
+	MaxSteps    int
+	Panics      []string
+	Deadlock    bool
+	Horizon     bool
+	Log         []string
+	wg          sync.WaitGroup
 }
 
 type vtimer struct {
@@ -431,7 +438,7 @@ func (s *Sched) Run(main func()) {
 				envEnabled = true
 			}
 		}
-		if canAdvance && !envEnabled && s.timerHasWaiter() && (s.MaxSlack == 0 || s.nextTimer().when.Sub(s.Now) <= s.MaxSlack) {
+		if canAdvance && !s.NoClockDeviation && !envEnabled && s.timerHasWaiter() && (s.MaxSlack == 0 || s.nextTimer().when.Sub(s.Now) <= s.MaxSlack) {
 			costs = append(costs, 1)
 			sig += "advance;"
 			n++
@@ -589,6 +596,9 @@ func Send[T any](loc string, ch chan<- T) func(T) {
 			ch <- v
 			return
 		}
+		if S.ArriveYield && S.Explore && cap(ch) == 0 {
+			t.park(&op{kind: opYield, loc: loc + "^"})
+		}
 		o := &op{kind: opSend, loc: loc, ch: reflect.ValueOf(ch), val: reflect.ValueOf(&v).Elem()}
 		t.park(o)
 		if o.done {
@@ -605,6 +615,9 @@ func Recv2[T any](loc string, ch <-chan T) (T, bool) {
 	if t == nil {
 		v, ok := <-ch
 		return v, ok
+	}
+	if S.ArriveYield && S.Explore && cap(ch) == 0 {
+		t.park(&op{kind: opYield, loc: loc + "^"})
 	}
 	o := &op{kind: opRecv, loc: loc, ch: reflect.ValueOf(ch)}
 	t.park(o)
@@ -689,6 +702,14 @@ func Select(loc string, hasDefault bool, cases ...Case) int {
 		}
 		cases[i].set(v, ok)
 		return i
+	}
+	if S.ArriveYield && S.Explore && !hasDefault {
+		for _, c := range cases {
+			if c.chanv().IsValid() && !c.chanv().IsNil() && c.chanv().Cap() == 0 {
+				t.park(&op{kind: opYield, loc: loc + "^"})
+				break
+			}
+		}
 	}
 	o := &op{kind: opSelect, loc: loc, cases: cases, hasDef: hasDefault}
 	t.park(o)
